@@ -1,35 +1,27 @@
-"""C02 — version ordering agrees with each ecosystem's own implementation.
-
-Thin driver: every module of harness/props/parts that defines c02(ctx) contributes its system."""
-from props import parts
+"""C02 driver: runs every part module (harness/props/parts/*.py) that defines c02(ctx)."""
+import glob
+import importlib
+import os
+import lib
 
 PROOF_FILE = "C02"
 LEVEL = "proof"
-RULE = ("per system, pools of version strings drawn from the reference tool's grammar (plus boundary spellings); every ordered "
-        "pair of a pool is compared by the Go implementation and by the extracted reference specification (Spec/*.v); a pair is "
-        "non-trivial when both sides accept both strings; distinct pairs are counted")
+RULE = "see the per-system parts; distinct accepted version strings / pairs are counted as non-trivial"
 TRUSTED = [
-    "Coq 8.16.1 kernel (+vm_compute for refuted witnesses)",
-    "the reference specifications Spec/MavenSpec.v (ComparableVersion, Maven 3.6) and Spec/GemSpec.v (Gem::Version) are transcribed "
-    "from the published sources; MavenSpec is re-validated against the installed maven-artifact jar when java is present",
-    "translator gotables; extraction (ExtrOcamlBasic only) + driver.ml; Go harness (H4 dump); python generators and oracle",
+    "Coq 8.16.1 kernel", "hook H4 (semver.VerifDump)", "translator gotables",
+    "extraction (ExtrOcamlBasic only) + driver.ml; Go harness; python generators",
+    "declarative specifications in coq/Spec are transcriptions of the published algorithms",
 ]
-ASSUMPTIONS = [
-    "theorems relate the comparator model to the specification on parsed structures; the parsers (model and specification) are tied to "
-    "strings by execution on every generated string",
-    "Maven: domain D_mvn of DESIGN 6.4 minus a release-equivalent qualifier followed by a number; ASCII input",
-]
-MANIFEST = dict(
-    category="proof",
-    text=("Reference specifications in Gallina (ComparableVersion 3.6, Gem::Version) and theorems that the comparator model agrees with "
-          "them on the stated domains (see Properties/C02_*.v: full / partial / refuted with witnesses). Tie: Go Compare vs the "
-          "extracted specification on all pairs of generated pools; mismatches are classified with the model (open known classes "
-          "are counted, anything else is a violation); the reference's normalised forms are checked to be accepted."),
-    note=("Trusted: Coq kernel, the transcribed specifications (Maven's re-validated against the installed jar when possible), "
-          "gotables, extraction+driver, Go harness, generators. Models hand-written, validated by execution each run."),
-    technique="Rocq proof (model = specification on a domain) + differential oracle Go vs extracted specification",
-    design="8 C02")
+ASSUMPTIONS = ["hand-written model validated by execution on every run"]
 
 
 def run(ctx):
-    parts.run_all("c02", ctx)
+    here = os.path.dirname(os.path.abspath(__file__))
+    for f in sorted(glob.glob(os.path.join(here, "parts", "*.py"))):
+        name = os.path.basename(f)[:-3]
+        if name.startswith("_"):
+            continue
+        mod = importlib.import_module("props.parts." + name)
+        fn = getattr(mod, "c02", None)
+        if fn:
+            fn(ctx)
